@@ -255,6 +255,24 @@ impl Prop for C15 {
                         .with(json!({"case": exec::case_json(&cfg1, &bytes_of(&section_of(kind, &name1, hs.clone()))), "renamed_to": name2})),
                 );
             }
+            // and it is that of the name, not of the event: the lines of an added or deleted file
+            // are coloured like the same lines added to / removed from a modified file of that name
+            if only.is_some() {
+                let om = match run(&cfg1, &bytes_of(&section_of(SK::Modified, &name1, hs.clone())), ctx) {
+                    Ok(o) => o,
+                    Err(f) => return Verdict::Fail(f),
+                };
+                let xm = content_rows(&om);
+                if xa.len() != xm.len() || xa.iter().zip(xm.iter()).any(|(a, b)| a.cells != b.cells) {
+                    let i = xa.iter().zip(xm.iter()).position(|(a, b)| a.cells != b.cells).unwrap_or(0);
+                    return Verdict::Fail(
+                        Failure::new("C15:event-changes-colouring", format!("{} file `{}`: hunk row {} is coloured differently from the same line of a modified file of that name: `{}`", kind.name(), name1, i, xa.get(i).map(|r| r.text()).unwrap_or_default()))
+                            .with(json!({"case": exec::case_json(&cfg1, &bytes_of(&section_of(kind, &name1, hs.clone()))),
+                                "as_event": xa.get(i).map(|r| format!("{:?}", r.cells.iter().map(|c| (c.text.clone(), c.st.fg)).collect::<Vec<_>>())),
+                                "as_modified": xm.get(i).map(|r| format!("{:?}", r.cells.iter().map(|c| (c.text.clone(), c.st.fg)).collect::<Vec<_>>()))})),
+                    );
+                }
+            }
             ctx.class(&format!("rename-relation:{}", kind.name()));
             // what follows does not change how this file's lines are coloured: the same section
             // followed by a section of another language
